@@ -27,14 +27,14 @@ func init() {
 			"cb.dequeue is the first statement of the callback loop body, so its order is the processing order",
 			"histories whose install count differs from the dequeued new-config count (queue overflow) are judged only on the clauses that do not assume callbacks keep up; they are counted",
 		},
-		MinDistinct: map[string]int{"quick": 120, "thorough": 1500},
+		MinDistinct: map[string]int{"quick": 1200, "thorough": 150000},
 		MinCounters: map[string]map[string]int64{
 			"quick":    {"scripted_schedules_run": 62, "callback_invocations_compared": 3000, "catchups_due": 60, "skips_due": 40},
-			"thorough": {"scripted_schedules_run": 62, "callback_invocations_compared": 200000},
+			"thorough": {"scripted_schedules_run": 62, "callback_invocations_compared": 5000000},
 		},
 		Plan: func(tier string) fw.Plan {
 			if tier == "thorough" {
-				return fw.Plan{Shards: 16, CasesPerShard: 1800, TimeoutSec: 3000}
+				return fw.Plan{Shards: 16, CasesPerShard: 20000, TimeoutSec: 3000}
 			}
 			return fw.Plan{Shards: 8, CasesPerShard: 250, TimeoutSec: 900}
 		},
